@@ -5,6 +5,7 @@ import (
 	"go/ast"
 	"go/token"
 	"go/types"
+	"sort"
 	"strings"
 
 	"golang.org/x/tools/go/cfg"
@@ -1317,5 +1318,148 @@ func c10r10(rc *core.RC) {
 	}
 	if n < 3 {
 		rc.Unknown("encoder/FieldQuery-methods", token.NoPos, "found %d methods of *FieldQuery (confirmed: Hash, MarshalJSON, QueryString)", n)
+	}
+}
+
+// ---- C10.R11 a struct that holds a lock is never copied ----
+
+// OpcodeSet guards its query cache with cacheMu; the decoder and encoder caches, the Stream and the contexts hold
+// sync values as well. A lock works for the one variable it is: a method with a value receiver, a by-value parameter
+// or `x := *p` gives the callee its own copy of the lock and leaves the guarded map shared. Readers then lock a
+// private mutex while the writer locks the real one (a data race on the map, and a copy taken while the writer holds
+// the lock is a locked mutex nobody unlocks: the call never returns). Obligation, for every struct type of the library
+// that contains a sync.Mutex, RWMutex, Once, WaitGroup, Cond, Pool, Map or an atomic value, not through a pointer: no
+// method has it as a value receiver, no function takes or returns it by value, and no expression dereferences a
+// pointer to it as a value (assignment, argument, composite element).
+func c10r11(rc *core.RC) {
+	p := rc.P
+	var holds func(t types.Type, seen map[types.Type]bool) bool
+	holds = func(t types.Type, seen map[types.Type]bool) bool {
+		if seen[t] {
+			return false
+		}
+		seen[t] = true
+		if n, ok := t.(*types.Named); ok {
+			if o := n.Obj(); o.Pkg() != nil && (o.Pkg().Path() == "sync" || o.Pkg().Path() == "sync/atomic") {
+				switch o.Name() {
+				case "Mutex", "RWMutex", "Once", "WaitGroup", "Cond", "Pool", "Map", "Value", "Bool", "Int32", "Int64", "Uint32", "Uint64", "Uintptr", "Pointer":
+					return true
+				}
+			}
+		}
+		switch u := t.Underlying().(type) {
+		case *types.Struct:
+			for i := 0; i < u.NumFields(); i++ {
+				if holds(u.Field(i).Type(), seen) {
+					return true
+				}
+			}
+		case *types.Array:
+			return holds(u.Elem(), seen)
+		}
+		return false
+	}
+	lockTypes := map[*types.TypeName]bool{}
+	for _, pk := range p.LibPkgs() {
+		scope := pk.Types.Scope()
+		for _, nm := range scope.Names() {
+			tn, ok := scope.Lookup(nm).(*types.TypeName)
+			if !ok {
+				continue
+			}
+			if _, isStruct := tn.Type().Underlying().(*types.Struct); isStruct && holds(tn.Type(), map[types.Type]bool{}) {
+				lockTypes[tn] = true
+			}
+		}
+	}
+	isLock := func(t types.Type) bool {
+		n, ok := t.(*types.Named)
+		return ok && lockTypes[n.Obj()]
+	}
+	if len(lockTypes) < 2 {
+		rc.Unknown("module/lock-holding-types", token.NoPos, "found %d struct types that hold a lock (confirmed: OpcodeSet among them)", len(lockTypes))
+		return
+	}
+	bad := map[*types.TypeName][]string{}
+	report := func(t types.Type, pos token.Pos, what string) {
+		n := t.(*types.Named)
+		bad[n.Obj()] = append(bad[n.Obj()], what+" at "+p.Pos(pos))
+	}
+	for _, pk := range p.LibPkgs() {
+		info := pk.TypesInfo
+		for _, fd := range p.Funcs(pk.Name) {
+			fn, _ := info.Defs[fd.Name].(*types.Func)
+			if fn == nil {
+				continue
+			}
+			sig := fn.Type().(*types.Signature)
+			name := p.FuncName(fd)
+			if sig.Recv() != nil && isLock(sig.Recv().Type()) {
+				report(sig.Recv().Type(), fd.Pos(), "value receiver of "+name)
+			}
+			for i := 0; i < sig.Params().Len(); i++ {
+				if isLock(sig.Params().At(i).Type()) {
+					report(sig.Params().At(i).Type(), fd.Pos(), "by-value parameter of "+name)
+				}
+			}
+			for i := 0; i < sig.Results().Len(); i++ {
+				if isLock(sig.Results().At(i).Type()) {
+					report(sig.Results().At(i).Type(), fd.Pos(), "by-value result of "+name)
+				}
+			}
+			if fd.Body == nil {
+				continue
+			}
+			ast.Inspect(fd.Body, func(m ast.Node) bool {
+				st, ok := m.(*ast.StarExpr)
+				if !ok {
+					return true
+				}
+				tv, has := info.Types[st]
+				if !has || !tv.IsValue() || !isLock(tv.Type) {
+					return true
+				}
+				// a dereference used as a value: not the operand of a selector, of & or the target of an assignment
+				path := core.PathTo(fd.Body, st)
+				if len(path) >= 2 {
+					switch par := path[len(path)-2].(type) {
+					case *ast.SelectorExpr:
+						return true
+					case *ast.UnaryExpr:
+						if par.Op == token.AND {
+							return true
+						}
+					case *ast.ParenExpr:
+						if len(path) >= 3 {
+							if _, isSel := path[len(path)-3].(*ast.SelectorExpr); isSel {
+								return true
+							}
+						}
+					case *ast.AssignStmt:
+						for _, l := range par.Lhs {
+							if ast.Node(l) == ast.Node(st) {
+								// *p = T{…}: the variable is overwritten, not copied (reported only for a lock value on the right)
+								return true
+							}
+						}
+					}
+				}
+				report(tv.Type, st.Pos(), "copy by dereference in "+name)
+				return true
+			})
+		}
+	}
+	var tns []*types.TypeName
+	for tn := range lockTypes {
+		tns = append(tns, tn)
+	}
+	sort.Slice(tns, func(i, j int) bool { return tns[i].Pkg().Name()+tns[i].Name() < tns[j].Pkg().Name()+tns[j].Name() })
+	for _, tn := range tns {
+		key := fmt.Sprintf("%s.%s/never-copied", tn.Pkg().Name(), tn.Name())
+		if len(bad[tn]) == 0 {
+			rc.OK(key, tn.Pos(), "holds a lock and is used through pointers only")
+		} else {
+			rc.Bad(key, tn.Pos(), "%s.%s holds a lock and is copied: %s. The copy has a lock of its own and shares what the lock guards: readers and the writer no longer exclude each other, and a copy of a held lock is never released", tn.Pkg().Name(), tn.Name(), strings.Join(bad[tn], "; "))
+		}
 	}
 }
